@@ -287,8 +287,11 @@ def check_to_polar(case, ctx):
 def polar_cases(draw):
     return {'x0': draw(st.floats(-50, 150)), 'y0': draw(st.floats(-50, 150)),
             'sma': draw(st.floats(1, 60)), 'eps': draw(st.floats(0.0, 0.9)),
+            # documented range (0, pi]; both forms also carry an explicit
+            # branch for negative angles
             'pa': draw(st.one_of(st.floats(0, math.pi), st.sampled_from(
-                [0.0, math.pi / 2, math.pi - 1e-9, 1e-12]))),
+                [0.0, math.pi / 2, math.pi - 1e-9, 1e-12]), st.sampled_from(
+                [math.pi, math.pi, -0.3, -2.0, -math.pi / 2]))),
             'points': [[draw(st.floats(-100, 250)), draw(st.floats(-100, 250))]
                        for _ in range(draw(st.integers(1, 6)))]}
 
